@@ -164,6 +164,8 @@ where
         let shutdown_clone = shutdown.clone();
         let main_app_thread = thread::spawn(move || {
             for stream in socket.incoming() {
+                #[cfg(feature = "verif")]
+                crate::verif::point("app.accept.before_flag_check");
                 if shutdown_clone.load(Ordering::SeqCst) {
                     break;
                 }
@@ -223,6 +225,8 @@ where
             // We wait for the shutdown signal, then wake up the main app thread with a new connection
             let _ = s.recv();
             shutdown.store(true, Ordering::SeqCst);
+            #[cfg(feature = "verif")]
+            crate::verif::point("app.shutdown.after_store");
             let _ = TcpStream::connect(unspecified_socket_to_loopback(addr));
         };
 
